@@ -12,7 +12,15 @@ CHECKS = [
      "technique": "property-based testing (Hypothesis) + exhaustive dictionary enumeration against an independent reference codec (differential + round-trip)",
      "text": "Every one of the dictionary entries x 9 (M,P) choices x a boundary value pool is enumerated exhaustively, and 10^5 (quick) / 10^6 (thorough) Hypothesis-generated (entry, flags, value) cases, grouped trees to depth 6, run-time registered definitions for all 13 type classes, unknown codes and well-formed wire AVPs are checked in four directions (encode == reference bytes, decode == reference value/class/flags, re-encode == input, out-of-domain rejected). Exploration, not proof: it samples the value domain.",
      "note": "Trusted: dv/refcodec.py (written from RFC 6733/RFC 4330), Python's int.to_bytes/utf-8/ipaddress, TZ=UTC. The dictionary is read from the repo as data."},
+    {"id": "C02", "engine": "E1-refcodec", "category": "exploration", "design_ref": "DESIGN.md section 3 C02",
+     "technique": "property-based testing (Hypothesis) + exhaustive command-code x flag-octet enumeration against an independent reference parser and reference tree search",
+     "text": "All registered command codes (+2 registered at run time, + unknown codes) x all 256 flag octets are enumerated; Hypothesis messages of 0..40 dictionary AVPs (nesting <= 6, repeats) are decoded typed and generically and compared field by field and AVP by AVP (recursively) with the reference parse, re-encoded (generic) and constructed/encoded through the public classes; find_avps is compared by object position with a reference search over generated path sequences (hits, vendor-distinguished misses).",
+     "note": "Trusted: dv/refcodec.py parser and find(); class expectation derived from the registry by naming/subclass relation; typed classes regenerate their AVP list so sequence identity is demanded of generic decoding only."},
+    {"id": "C20", "engine": "E1-refcodec", "category": "exploration", "design_ref": "DESIGN.md section 3 C20",
+     "technique": "exhaustive enumeration of the class closure x 256 flag octets + Hypothesis header values, oracle = header algebra of the statement and name/subclass pairing; helper answers parsed by the reference parser",
+     "text": "Every class in the Message subclass closure and unknown codes x all 256 flag octets x flags set before/after construction x boundary ids: answer class, copied header fields, flags == request & P, request unmodified. Every typed request class x Session-Id/Proxy-Info presence through Application.generate_answer and Node._generate_answer: Origin-Host/Realm, copied Session-Id/Proxy-Info verified on the encoded bytes.",
+     "note": "Exhaustive over classes x flag octets; ids/app-ids are boundary tuples plus random samples. Helper clause on typed requests only (documented precondition)."},
 ]
 
 _TODO = "check not built yet in this session (planned, see DESIGN.md); not claimed until its machinery is committed"
-NOT_APPLICABLE = [{"property_id": f"C{n:02d}", "reason": _TODO} for n in range(2, 21)]
+NOT_APPLICABLE = [{"property_id": f"C{n:02d}", "reason": _TODO} for n in range(2, 21) if f"C{n:02d}" not in {c["id"] for c in CHECKS}]
